@@ -298,7 +298,17 @@ def crafted() -> list[dict]:
            for kind in ("request", "response")]
     d11 = {"type": "data", "name": "Zc11LateRecord", "validVersions": "2", "flexibleVersions": "2+",
            "fields": [F("Payload", "bytes", versions="2+")]}
-    out = [d1, d2, d3, d7, d8, d9, *d10, d11]
+    # a common structure used inside the structure of the *first* struct-typed field and again later
+    # (each structure is emitted once per module), and one used from three places
+    d12 = {"type": "request", "name": "Zc12HeartbeatRequest", "apiKey": 1902, "validVersions": "0-1", "flexibleVersions": "0+",
+           "fields": [F("GroupId", "string"),
+                      F("Assignment", "Zc12Assignment", nullableVersions="0+", default="null",
+                        fields=[F("TopicPartitions", "[]Zc12TopicPartitions"), F("Epoch", "int32")]),
+                      F("Pending", "[]Zc12TopicPartitions"),
+                      F("Revoked", "[]Zc12TopicPartitions", versions="1+")],
+           "commonStructs": [{"name": "Zc12TopicPartitions", "versions": "0+",
+                              "fields": [F("TopicId", "uuid"), F("Partitions", "[]int32")]}]}
+    out = [d1, d2, d3, d7, d8, d9, *d10, d11, d12]
     for key, stem in ((7, "Zc3Shutdown"), (18, "Zc4Versions")):
         for kind in ("request", "response"):
             out.append({"type": kind, "name": stem + kind.capitalize(), "apiKey": key, "validVersions": "0-4",
